@@ -216,46 +216,60 @@ def build_corpus(rng, n_random):
     seeds.append(bytes(enc.make_network_nack(seeds[0], 150)))
     seeds.append(pitkit.lp_wrap(seeds[2], token=b'\x01\x02\x03\x04'))
     seeds.append(pitkit.lp_wrap(seeds[0], extra=True))
-    corpus = set()
+    corpus = {}
+
+    class _Add:
+        def __init__(self, cls):
+            self.cls = cls
+
+        def add(self, b):
+            corpus.setdefault(bytes(b), self.cls)
+
+        def update(self, bs):
+            for b in bs:
+                self.add(b)
+    sub, trunc, refr, odd, fragc, addr, rnd, lpo = (_Add(c) for c in ('mut-sub', 'mut-trunc', 'mut-reframed', 'odd', 'frag', 'addr-malformed', 'random', 'lp-overrun'))
     for s in seeds:
         for i in range(len(s)):
             for x in (0x01, 0x80, 0xFF):
                 m = bytearray(s); m[i] ^= x
-                corpus.add(bytes(m))
+                sub.add(bytes(m))
         for cut in range(0, len(s)):
-            corpus.add(s[:cut])                                   # truncated, outer length now inconsistent
+            trunc.add(s[:cut])                                    # truncated, outer length now inconsistent
             if cut >= 2:
                 try:
                     t, ts = st.parse_var(s)
-                    corpus.add(st.write_var(t) + st.write_var(max(cut - 2, 0)) + s[2:cut])   # truncated with re-framed outer TL
+                    refr.add(st.write_var(t) + st.write_var(max(cut - 2, 0)) + s[2:cut])   # truncated with re-framed outer TL
                 except st.TlvError:
                     pass
     # structural oddities
     d0 = bytes(enc.make_data('/zz/d', enc.MetaInfo(), b'x'))
-    corpus.update([bytes.fromhex(h) for h in ('6400', '640350017f', '64025000', '0500', '0600', '050207' + '00', '0602' + '0700',
+    odd.update([bytes.fromhex(h) for h in ('6400', '640350017f', '64025000', '0500', '0600', '050207' + '00', '0602' + '0700',
                                               '0a0102', 'fd0320' + '00', '64' + '06' + '5001' + '06' + '5001' + '05', 'ff', 'fe', 'fd00')])
-    corpus.add(pitkit.lp_wrap(None, nack_reason=150))               # Nack header, no fragment
-    corpus.add(pitkit.lp_wrap(d0, frag=(0, 2)))                     # fragment 0 of 2
-    corpus.add(pitkit.lp_wrap(d0, nack_reason=150))                 # Nack carrying a Data
-    corpus.add(pitkit.lp_wrap(b'\x05', extra=True))                 # truncated fragment
+    odd.add(pitkit.lp_wrap(None, nack_reason=150))               # Nack header, no fragment
+    fragc.add(pitkit.lp_wrap(d0, frag=(0, 2)))                     # fragment 0 of 2
+    odd.add(pitkit.lp_wrap(d0, nack_reason=150))                 # Nack carrying a Data
+    odd.add(pitkit.lp_wrap(b'\x05', extra=True))                 # truncated fragment
     # packets that DO address the universe names but are fragments or structurally malformed
     for comps, did in UNIVERSE_DATA:
         w = bytes(enc.make_data(nm(comps), enc.MetaInfo(), b'D%d' % did))
-        corpus.add(pitkit.lp_wrap(w, frag=(0, 1)))
-        corpus.add(pitkit.lp_wrap(w, frag=(1, 2), extra=True))
+        fragc.add(pitkit.lp_wrap(w, frag=(0, 1)))
+        fragc.add(pitkit.lp_wrap(w, frag=(1, 2), extra=True))
+        # LpPacket whose Fragment announces more bytes than the packet holds (structurally malformed envelope)
+        lpo.add(bytes([0x64]) + st.write_var(len(w) + 2) + bytes([0x50]) + st.write_var(len(w) + 7) + w)
         for i in range(1, len(w)):
             for delta in (1, 0x7F):
                 m = bytearray(w); m[i] = (m[i] + delta) % 256
                 if not wellformed_strict(bytes(m)):
-                    corpus.add(bytes(m))
+                    addr.add(bytes(m))
         for cut in range(2, len(w)):
             m = w[:cut]
             if not wellformed_strict(m):
-                corpus.add(m)
+                addr.add(m)
     for _ in range(n_random):
-        corpus.add(bytes(rng.randrange(256) for _ in range(rng.choice([1, 2, 3, 5, 8, 20, 60]))))
-    corpus.discard(b'')
-    return sorted(corpus)
+        rnd.add(bytes(rng.randrange(256) for _ in range(rng.choice([1, 2, 3, 5, 8, 20, 60]))))
+    corpus.pop(b'', None)
+    return sorted(corpus.items())
 
 
 def robustness(ctx):
@@ -269,7 +283,7 @@ def robustness(ctx):
     def junk(_rng):
         k = next(it)
         used.add(k)
-        return corpus[k].hex()
+        return corpus[k][0].hex(), corpus[k][1]
     if 'A' in ctx.stages:
         # RecvJunk is enabled in every reachable pipeline state and changes nothing (JunkInert), checked by TLC
         pc.stage_a(ctx, [('v2 pit + junk', pc.mc_cfg('pit-A6', 'v2', 2, 2, 'small', 'v2two'))])
@@ -285,7 +299,7 @@ def robustness(ctx):
             fc.stage_c(ctx, front, n, 30 + per, junk=junk, names=fc.NAMES[1:],
                        weights=dict(RecvJunk=10 + per, Attach=3, RecvInterest=6, IntValFinish=4, Reply=2, Tick=2, Shutdown=0.05))
         ctx.extra['junk_delivered_distinct'] = len(used)
-    udp(ctx, corpus)
+    udp(ctx, [w for w, _ in corpus])
 
 
 def udp(ctx, corpus):
